@@ -307,8 +307,6 @@ Proof.
 Qed.
 
 (* ---- nothing to remove ---- *)
-Fixpoint has_sub (p s : text) : bool :=
-  match strip_prefix p s with Some _ => true | None => match s with [] => false | _ :: t => has_sub p t end end.
 Lemma strip_prefix_app : forall p q s,
   strip_prefix (p ++ q) s = match strip_prefix p s with Some r => strip_prefix q r | None => None end.
 Proof.
@@ -358,3 +356,38 @@ Proof.
   induction s as [|a t IH]; intros b H. reflexivity.
   cbn. rewrite (H a) by (left; auto). f_equal. apply IH. intros x Hx. apply H. right; auto.
 Qed.
+
+(* ---- statements as they appear in Props/C19.v ---- *)
+Definition std_class (sp : ascii -> bool) : Prop := sp = re_space \/ sp = re2_space.
+Lemma std_lits : forall sp, std_class sp -> lits_ok sp.
+Proof. intros sp [->| ->]; reflexivity. Qed.
+
+Lemma remove_urls_token_l : forall sp, std_class sp -> forall w r,
+  (forall a, In a w -> sp a = false) -> match r with [] => True | a :: _ => sp a = true end ->
+  url_pass sp (w ++ r) = url_cut w ++ url_pass sp r /\
+  email_pass sp (w ++ r) = email_keep w ++ email_pass sp r /\
+  two_pass sp (w ++ r) = email_keep (url_cut w) ++ two_pass sp r.
+Proof.
+  intros sp C w r Hw Hr. pose proof (std_lits sp C) as L. repeat split.
+  apply url_pass_token; auto. apply email_pass_token; auto. apply two_pass_token; auto.
+Qed.
+Lemma remove_urls_ws_l : forall sp a r, sp a = true ->
+  url_pass sp (a :: r) = a :: url_pass sp r /\ email_pass sp (a :: r) = a :: email_pass sp r /\
+  two_pass sp (a :: r) = a :: two_pass sp r.
+Proof. intros. repeat split. apply url_pass_ws; auto. apply email_pass_ws; auto. apply two_pass_ws; auto. Qed.
+Lemma remove_urls_idem_l : forall sp, std_class sp -> forall s,
+  url_pass sp (url_pass sp s) = url_pass sp s /\ email_pass sp (email_pass sp s) = email_pass sp s /\
+  two_pass sp (two_pass sp s) = two_pass sp s.
+Proof.
+  intros sp C s. pose proof (std_lits sp C) as L. repeat split.
+  apply url_pass_idem; auto. apply email_pass_idem; auto. apply two_pass_idem; auto.
+Qed.
+Lemma remove_urls_unchanged_l : forall sp s,
+  (has_sub (lit "http") s = false /\ has_sub (lit "www.") s = false /\ ~ In ch_at s) \/ (forall a, In a s -> sp a = true) ->
+  two_pass sp s = s.
+Proof.
+  intros sp s [[H1 [H2 H3]]|H]. apply two_pass_unchanged; auto.
+  unfold two_pass, email_pass, url_pass. rewrite (ws_unchanged sp _ s false H). apply ws_unchanged. exact H.
+Qed.
+Lemma both_are_two_pass : forall s, py_remove_urls s = two_pass re_space s /\ pd_remove_urls s = two_pass re2_space s.
+Proof. split; reflexivity. Qed.
